@@ -5,7 +5,7 @@ cd $WT || exit 2
 git diff > /tmp/seed_$ID.diff
 [ -s /tmp/seed_$ID.diff ] || { echo "no change in worktree"; exit 2; }
 echo "== test suite with the change"
-(cmake --build _build -j16 >/dev/null 2>&1 && ctest --test-dir _build -j8 --timeout 900 2>&1 | tail -2)
+(cmake --build _build -j16 >/dev/null 2>&1 && ctest --test-dir _build -j8 --timeout 900 2>&1 | tail -3)
 echo "== demo on changed tree (expect non-zero)"
 (cd $OUT/demo && timeout 600 bash run.sh $WT >/tmp/seed_${ID}_changed.log 2>&1; echo "exit=$?")
 echo "== demo on pristine tree (expect 0)"
